@@ -199,6 +199,12 @@ func (x *Exec) havocCall(st *State, key string, c *ssa.CallCommon, args []*Val, 
 	if rt == nil {
 		return unitVal
 	}
+	if pure && isDeterministicExtern(key) {
+		if dv, ok := x.detExternResult(st, key, args, rt); ok {
+			x.detExt[key] = true
+			return dv
+		}
+	}
 	v := x.havocVal(rt, "ret."+shortKey(key))
 	x.assume(st, x.typeFacts(v, rt))
 	if nonNilResult[key] && v.K == VScalar && v.T.S == SInt {
@@ -694,4 +700,57 @@ func (x *Exec) checkCallsClauses(st *State, key string, fc *FuncContract, c *ssa
 		x.matchedCalls[cr.Label+"|"+cr.Callee] = true
 	}
 	return nil
+}
+
+
+var deterministicPrefixes = []string{"strings.", "strconv.", "bytes.", "unicode.", "unicode/utf8.", "path.", "net.(IP).", "net/netip.", "net.ParseIP", "net.ParseCIDR",
+	"net.SplitHostPort", "net.JoinHostPort", "net/url.(*URL).", "net/url.Parse", "net/url.(Values).", "net/url.QueryUnescape", "net/url.PathUnescape", "net/textproto.", "mime.", "encoding/hex.", "encoding/base64.", "crypto/sha256.",
+	"math.", "time.(Duration).", "time.ParseDuration", "time.Parse", "time.(Time).Format", "net/http.StatusText", "net/http.(*Request).BasicAuth", "net/http.(*Request).Context", "errors.Unwrap", "path/filepath.Clean", "path/filepath.Dir", "path/filepath.Base", "path/filepath.Join"}
+
+// isDeterministicExtern: external functions modelled as uninterpreted *functions* of their (value) arguments.
+func isDeterministicExtern(key string) bool {
+	for _, p := range deterministicPrefixes {
+		if strings.HasPrefix(key, p) {
+			return true
+		}
+	}
+	return false
+}
+
+// detExternResult builds f(args) per result leaf when all arguments are SMT scalars/records.
+func (x *Exec) detExternResult(st *State, key string, args []*Val, rt types.Type) (*Val, bool) {
+	var ts []*Term
+	for _, a := range args {
+		if !isSMTVal(a) {
+			return nil, false
+		}
+		ok := true
+		var rec func(v *Val)
+		rec = func(v *Val) {
+			switch v.K {
+			case VScalar:
+				ts = append(ts, v.T)
+			case VUnit:
+			case VStruct, VTuple, VSlice, VFloat:
+				for _, f := range v.F {
+					rec(f)
+				}
+			default:
+				ok = false
+			}
+		}
+		rec(a)
+		if !ok {
+			return nil, false
+		}
+	}
+	v := buildVal(rt, "", func(path string, s Sort, _ types.Type) *Term {
+		name := "ext." + key
+		if path != "" {
+			name += "#" + path
+		}
+		return x.ufApp(name, s, ts...)
+	})
+	x.assume(st, x.typeFacts(v, rt))
+	return v, true
 }
